@@ -54,3 +54,22 @@ def rt_cases(n, rng, prefix, canon=True):
         d = ldoc(rng, canon)
         cases.append((f"{prefix}{i}", [enc(d), ops(rng, d, rng.choice([0, 1, 3, 6, 12]))]))
     return cases
+
+
+def edge_cases(n, rng, prefix):
+    """values the English of C08 admits but the canonical domain excludes (recorded finding classes):
+       a continuation line starting with '#', a CR inside a line, an empty paragraph in a document"""
+    cases = []
+    for i in range(n):
+        d = ldoc(rng, True)
+        kind = i % 3
+        if kind == 0:
+            p = rng.choice(d); j = rng.randrange(len(p)); k, v = p[j]
+            p[j] = (k, (v if v else "a") + "\n#" + cline(rng))
+        elif kind == 1:
+            p = rng.choice(d); j = rng.randrange(len(p)); k, v = p[j]
+            p[j] = (k, (v.split("\n")[0] or "a") + "\r" + cline(rng, True))
+        else:
+            d.insert(rng.randrange(len(d) + 1), [])
+        cases.append((f"{prefix}{i}", [enc(d), "-"]))
+    return cases
